@@ -44,6 +44,19 @@ RP = "tx3_resolver::trp::spec::ResolveParams"
 TYPE = "tx3_tir::model::core::Type"
 
 
+def nofloat(F, res, cg, roots):
+    """integers (up to 128 bits) and byte strings are decoded exactly: nothing in the workspace part of the decoding closure
+    converts to or from floating point, computes with floats, or asks serde_json for the float view of a number"""
+    from ..common import float_sites
+    reach = cg.reachable(roots)
+    sites = float_sites(F, reach, crates=("tx3_resolver",))
+    key = "tx3_resolver::interop|no floating point in the decoding closure"
+    if not sites:
+        res.add([ok("NOFLOAT", key, "crates/tx3-resolver/src/interop.rs", "no float cast, float arithmetic or float view of a JSON number in %d functions" % len([p for p in reach if p.startswith("tx3_resolver")]))])
+    for i, (f, line, what) in enumerate(sites):
+        res.add([finding("NOFLOAT", "%s|%s" % (f["path"], what), where(f, line), "%s in %s: a JSON integer routed through a float is rounded to 53 significant bits, so the argument handed to the template is not the one the client sent" % (what, f["path"].split("::")[-1]))])
+
+
 def field_use(F, res):
     f = F.fn("tx3_resolver::trp::parse_resolve_request")
     adt = F.adt(RP)
@@ -161,6 +174,7 @@ def run(ctx):
     res.rule("PANIC", "no undischarged panic site in the closure of the request-parsing entry points")
     res.rule("F-FIELDUSE", "every field of ResolveParams is consulted by parse_resolve_request")
     res.rule("S-DECLARED", "arguments are inserted only for declared keys and coerced with the declared type")
+    res.rule("NOFLOAT", "no value passes through floating point in the resolver's part of the decoding closure: a 128-bit integer argument does not survive a 53-bit mantissa")
     res.rule("S-TYPES", "from_json has a dedicated arm for each scalar type")
     cg = CallGraph(F)
     rows = table("e1_rows")["C16"]
@@ -172,4 +186,5 @@ def run(ctx):
     field_use(F, res)
     declared_only(F, res)
     type_arms(F, res)
+    nofloat(F, res, cg, ROOTS + env_roots)
     return res
